@@ -122,7 +122,8 @@ BagHunk(l, h) ==
 KeyedMatches(l, keyobj) ==
   {i \in DOMAIN l :
      /\ IsObj(l[i])
-     /\ \A kk \in DOMAIN keyobj : HasKey(l[i], kk) /\ l[i].v[kk] = keyobj[kk]}
+     \* equal under the reading in force on a keyed path: SetKeys reads every array, also one inside a key value, as a set
+     /\ \A kk \in DOMAIN keyobj : HasKey(l[i], kk) /\ Canon(l[i].v[kk], "set") = Canon(keyobj[kk], "set")}
 
 (***************************************************************************)
 (* Strict strategy.                                                        *)
